@@ -217,9 +217,19 @@ def arith_task(p, cfg, rec):
     ew, mw, bias = FMT[fmt]
     rec.update(['py4hw.helper.FPNum.add', 'py4hw.helper.FPNum.sub', 'py4hw.helper.FPNum.mul', 'py4hw.helper.FPNum.compare',
                 'py4hw.helper.FPNum.adjust_semp', 'py4hw.helper.FPNum.increase_exponent', 'py4hw.helper.FPNum.increase_precision'])
-    ma, mav = core.fresh('ma', mw)
-    mb, mbv = core.fresh('mb', mw)
-    vars_ = {'ma': mav, 'mb': mbv}
+    if cfg.get('mbits'):
+        # reduced variant for wide formats in the quick tier: only the top `hi` and the bottom `lo` mantissa bits are free
+        hi, lo = cfg['mbits']
+        ah, ahv = core.fresh('ma_hi', hi)
+        al, alv = core.fresh('ma_lo', lo)
+        bh, bhv = core.fresh('mb_hi', hi)
+        bl, blv = core.fresh('mb_lo', lo)
+        ma, mb = (ah << (mw - hi)) + al, (bh << (mw - hi)) + bl
+        vars_ = {'ma_hi': ahv, 'ma_lo': alv, 'mb_hi': bhv, 'mb_lo': blv}
+    else:
+        ma, mav = core.fresh('ma', mw)
+        mb, mbv = core.fresh('mb', mw)
+        vars_ = {'ma': mav, 'mb': mbv}
     for sa, sb in ((0, 0), (0, 1), (1, 0), (1, 1)):
         def mkab():
             return fpnum_of(fmt, sa, ea, ma), fpnum_of(fmt, sb, eb, mb)
@@ -278,6 +288,9 @@ def arith_task(p, cfg, rec):
 
             def replay(values, op=op, sa=sa, sb=sb):
                 from fractions import Fraction
+                if cfg.get('mbits'):
+                    values = dict(values, ma=(values['ma_hi'] << (mw - cfg['mbits'][0])) + values['ma_lo'],
+                                  mb=(values['mb_hi'] << (mw - cfg['mbits'][0])) + values['mb_lo'])
                 with quiet():
                     a, b = fpnum_of(fmt, sa, ea, values['ma']), fpnum_of(fmt, sb, eb, values['mb'])
                     va = Fraction(a.s * a.m, a.p) * Fraction(2) ** a.e
@@ -380,6 +393,11 @@ def tasks_for(tier, seed):
         pairs += [('dp', a, b) for a, b in ((0, 1), (1023, 1024), (2046, 2046), (1000, 1060))]
     for fmt, a, b in pairs:
         t.append(('FPNum arithmetic %s exponent fields %d,%d' % (fmt, a, b), arith_task, {'fmt': fmt, 'ea': a, 'eb': b}))
+    # wide exponent gaps (sp/dp extremes) with a reduced mantissa: top 3 and bottom 2 bits free, the rest zero
+    for fmt, a, b in ((('sp', 254, 1), ('dp', 1023, 1300)) if quick else
+                      (('sp', 254, 1), ('sp', 0, 254), ('dp', 1023, 1300), ('dp', 700, 1023), ('dp', 1500, 1023), ('dp', 2046, 1))):
+        t.append(('FPNum arithmetic %s exponent fields %d,%d, mantissas with 3 top and 2 bottom bits free' % (fmt, a, b), arith_task,
+                  {'fmt': fmt, 'ea': a, 'eb': b, 'mbits': (3, 2)}))
     for fmt, ebs in (('hp', (1, 8, 0, 15, 30)), ('sp', (100, 0, 1, 127, 254)), ('dp', (1, 1023))):
         for eb in (ebs if not quick else ebs[:2] if fmt == 'hp' else ebs[:1] if fmt == 'sp' else ()):
             t.append(('FPNum compare with zeros %s, other operand exponent field %d' % (fmt, eb), zero_task, {'fmt': fmt, 'eb': eb}))
@@ -406,7 +424,7 @@ def main(argv=None):
                      'FloatingPointHelper conversions run on an exact dyadic float model (sign, integer mantissa, concrete exponent; only operations that are exact in double arithmetic); values not representable in the target format (rounding), FPNum.to_float/div/sqrt/reducePrecision* are outside'],
         bounds={'two\'s complement': 'all widths 1..16 (32 thorough), value and width symbolic', 'FixedPoint': 'all formats (1,i,f), i >= 1, up to total width 8 (12)',
                 'FPNum round trip': 'hp: all 32 exponent fields; sp: 21 fields quick / all 256 thorough; dp: 17 quick / all 2048 thorough; both signs, all mantissas',
-                'FPNum arithmetic': 'hp: exponent pairs (band + boundaries quick, all 31x31 thorough); sp/dp: boundary pairs + seeded windows; all mantissa pairs, all four sign combinations'},
+                'FPNum arithmetic': 'hp: exponent pairs (band + boundaries quick, all 31x31 thorough); sp/dp: boundary pairs, all mantissa pairs (thorough; dp pairs may end at the task time limit) and, wide-gap sp/dp pairs (2 quick, 6 thorough) with only the top 3 and bottom 2 mantissa bits free; all four sign combinations'},
         trusted_base=['z3', 'symx operator semantics', 'rational cross-multiplication oracle in checks/c12.py (replay uses fractions.Fraction)'], task_limit=1800)
 
 
